@@ -247,6 +247,12 @@ func (q *Queue) Init(cfg *config.Map) error {
 }
 
 func (q *Queue) start(maxParallelism int) error {
+	if maxParallelism <= 0 {
+		// No delivery attempt could ever get a slot (and Close would wait
+		// for them forever), a negative value crashes make below.
+		return errors.New("queue: max_parallelism should be positive")
+	}
+
 	q.wheel = NewTimeWheel(q.dispatch)
 	q.deliverySemaphore = make(chan struct{}, maxParallelism)
 
